@@ -84,6 +84,7 @@ class Ref:
 
 
 class C13(Machine):
+    chunk = 16      # runs per forked process (see runner._child)
     pid = 'C13'
     rule = ("one run = a generated survey (1x1x1 .. 4x4x3, NaN gaps, scalar "
             "or array noise settings) and a history of <=10 operations over "
